@@ -1,4 +1,7 @@
 import ConjureVerif.Lemmas.UriReq
+import ConjureVerif.Lemmas.MacroEmit
+import ConjureVerif.Gen.MacroClientSrc
+import ConjureVerif.Gen.MacroPathSrc
 import ConjureVerif.Gen.Uri
 /-
 C07 — Parameter values cannot alter the request URI structure and decode back exactly.
@@ -237,10 +240,21 @@ theorem C07_value_alphabet (v : List Nat) (hv : Bytes v) (x : Nat) (hx : x ∈ e
     simp only [Bool.or_eq_true, Bool.and_eq_true, decide_eq_true_eq] at h ⊢
     omega
 
-/-- `build` completes whenever the URI is within `http::Uri`'s length limit … -/
-theorem C07_build_total_partial (tbl : List Nat) (ps : List Push)
-    (h : (buildBuf tbl ps).length ≤ maxUriLen) : build tbl ps = .uri (buildBuf tbl ps) := by
-  simp [build, h]
+/-- `build` completes whenever the request has a path (every generated client: the template of a definition begins
+    with `/`) and the URI is within `http::Uri`'s length limit … -/
+theorem C07_build_total_partial (tbl : List Nat) (r : Req) (hs : r.segs ≠ [])
+    (h : (buildBuf tbl (r.pushes tbl)).length ≤ maxUriLen) :
+    build tbl (r.pushes tbl) = .uri (buildBuf tbl (r.pushes tbl)) := by
+  unfold build
+  have hb := buildBuf_eq tbl r
+  cases hsg : r.segs with
+  | nil => exact absurd hsg hs
+  | cons s ss =>
+    have : ∃ rest, buildBuf tbl (r.pushes tbl) = 47 :: rest := by
+      rw [hb, hsg]; simp [pathBytes, joinSegs]
+    obtain ⟨rest, hr⟩ := this
+    simp only [hr] at h ⊢
+    rw [if_pos h]
 
 /-- … and **panics** beyond it: the statement's "rather than panicking" is false of the code for a
     parameter value longer than 65 533 bytes (recorded as a known finding) -/
@@ -255,6 +269,125 @@ theorem C07_build_panics_witness :
   simp only [List.foldl_cons, List.foldl_nil, Builder.push, henc, List.nil_append,
     List.length_cons, List.length_replicate, maxUriLen]
   rw [if_neg (by omega)]
+
+/-- … and **panics** for a request without a single path segment: `#[conjure_client]` accepts `path = ""` (path.rs:
+    "paths must either be empty or start with `/`"), and every call of such a method panics in `build`, with or
+    without query arguments; so does a call of a method whose template holds only sequence parameters when all of
+    them are given no text (recorded as a known finding) -/
+theorem C07_build_panics_no_path (tbl : List Nat) (q : List (List Nat × List Nat)) :
+    build tbl (Req.pushes tbl { segs := [], query := q }) = .panic := by
+  unfold build
+  rw [buildBuf_eq]
+  cases q with
+  | nil => simp [pathBytes, joinSegs, queryBytes]
+  | cons kv rest => simp [pathBytes, joinSegs, queryBytes]
+
+/-! #### clients derived by `#[conjure_client]`: any template, any arguments -/
+section Macro
+open ConjureVerif.MacroEmit
+
+/-- the functions of conjure-macros the model of the derivation transcribes -/
+theorem gen_macro_sources :
+    Gen.MacroPathSrc.hashes.lookup "fn parse" = some 6349193773656881568 /- "{letpath=path_lit.value();ifpath.is_empty(){returnOk(vec![]);}letSome(path)=path.strip_prefix('/')else{returnErr(Error::new_spanned(path_lit,\"pathsmusteitherbeemptyorstartwith`/`\",));};letcomponents=path.split('/').map(|component|{matchcomponent.strip_prefix('{').and_then(|c|c.strip_suffix('}')){Some(parameter)=>PathComponent::Parameter(parameter.to_string()),None=>PathComponent::Literal(component.to_string()),}}).collect();Ok(components)}" -/ ∧
+    Gen.MacroClientSrc.hashes.lookup "fn add_path_components" = some 11982624397980029467 /- "{letpath_params=endpoint.args.iter().filter_map(|a|matcha{ArgType::Path(param)=>Some((param.attr.name(&param.ident),param)),_=>None,}).collect::<HashMap<_,_>>();letmutpath_writes=vec![];letmutliteral_buf=String::new();forcomponentin&endpoint.path{matchcomponent{PathComponent::Literal(lit)=>{literal_buf.push('/');literal_buf.push_str(&percent_encoding::percent_encode(lit.as_bytes(),COMPONENT).to_string(),);}PathComponent::Parameter(param)=>{if!literal_buf.is_empty(){path_writes.push(quote!{#builder.push_literal(#literal_buf);});literal_buf=String::new();}letparam=path_params[param];letident=&param.ident;letencoder=param.attr.encoder.as_ref().map_or_else(||quote!(conjure_http::client::DisplayEncoder),|e|quote!(#e),);path_writes.push(quote!{let__path_args=<#encoderasconjure_http::client::EncodeParam<_>>::encode(#ident)?;for__path_argin__path_args{#builder.push_path_parameter_raw(&__path_arg);}});}}}if!literal_buf.is_empty(){path_writes.push(quote!{#builder.push_literal(#literal_buf);});}quote!{#(#path_writes)*}}" -/ ∧
+    Gen.MacroClientSrc.hashes.lookup "fn add_query_arg" = some 5830468533810908243 /- "{letident=&arg.ident;letname=percent_encoding::percent_encode(arg.attr.name.value().as_bytes(),COMPONENT).to_string();letencoder=arg.attr.encoder.as_ref().map_or_else(||quote!(conjure_http::client::DisplayEncoder),|e|quote!(#e),);quote!{let__query_args=<#encoderasconjure_http::client::EncodeParam<_>>::encode(#ident)?;for__query_argin__query_args{#builder.push_query_parameter_raw(#name,&__query_arg);}}}" -/ := by decide +kernel
+
+/-- **a derived method's URI is a well-formed request's URI**: for every template the macro accepts, every
+    assignment of path and query arguments and every list of texts their encoders return, the statements the macro
+    derives write the bytes of a request in normal form — one constant segment per literal component, escaped at
+    expansion time and so free of `/ ? #` whatever the template says; one segment per text of the argument a
+    `{name}` component names; one pair per text of each query argument under its escaped key.  `C07_segments`,
+    `C07_pairs`, `C07_no_fragment` therefore hold of it. -/
+theorem C07_macro_request (tbl : List Nat) (g : Good tbl) (tmpl : List Comp) (pathArgs queryArgs : List MArg)
+    (vals : Nat → List (List Nat)) (cs : List MCall) (h : writes tbl tmpl pathArgs queryArgs = some cs)
+    (hl : ∀ l, Comp.lit l ∈ tmpl → Bytes l) (hv : ∀ i, ∀ v ∈ vals i, Bytes v) (hk : ∀ a ∈ queryArgs, Bytes a.name) :
+    buildBuf tbl (pushes vals cs) = buildBuf tbl ((macroReq tbl tmpl pathArgs queryArgs vals).pushes tbl) ∧
+    WF (macroReq tbl tmpl pathArgs queryArgs vals) := by
+  refine ⟨macro_buildBuf tbl tmpl pathArgs queryArgs vals cs h, ?_, ?_, ?_⟩
+  · intro s hs
+    simp only [macroReq, List.mem_flatMap] at hs
+    obtain ⟨c, hc, hs⟩ := hs
+    cases c with
+    | lit l =>
+      simp [segsOf] at hs; subst hs
+      have := C07_no_delimiter tbl g l (hl l hc)
+      exact ⟨this.1, this.2.1, this.2.2.1⟩
+    | param n =>
+      simp only [segsOf] at hs
+      split at hs
+      · simp at hs
+      · cases hs
+  · intro v hvm
+    simp only [macroReq, List.mem_flatMap] at hvm
+    obtain ⟨c, hc, hvm⟩ := hvm
+    cases c with
+    | lit l => simp [segsOf] at hvm
+    | param n =>
+      simp only [segsOf] at hvm
+      split at hvm
+      · rename_i a _
+        simp only [List.mem_map] at hvm
+        obtain ⟨w, hw, he⟩ := hvm
+        cases he
+        exact hv a.slot v hw
+      · cases hvm
+  · intro kv hkv
+    simp only [macroReq, List.mem_flatMap, List.mem_map] at hkv
+    obtain ⟨a, ha, w, hw, rfl⟩ := hkv
+    exact ⟨hk a ha, hv a.slot w hw⟩
+
+/-- **exactly the template's segments**: the path a derived method builds has one raw segment per literal and one per
+    text supplied for a parameter, in template order — a trailing literal, a literal between two parameters, an empty
+    component are all there; nothing a value contains adds or removes one -/
+theorem C07_macro_segments (tbl : List Nat) (g : Good tbl) (tmpl : List Comp) (pathArgs queryArgs : List MArg)
+    (vals : Nat → List (List Nat)) (cs : List MCall) (h : writes tbl tmpl pathArgs queryArgs = some cs)
+    (hl : ∀ l, Comp.lit l ∈ tmpl → Bytes l) (hv : ∀ i, ∀ v ∈ vals i, Bytes v) (hk : ∀ a ∈ queryArgs, Bytes a.name) :
+    rawSegments (buildBuf tbl (pushes vals cs)) =
+      (tmpl.flatMap (segsOf tbl pathArgs vals)).map (Seg.raw tbl) := by
+  obtain ⟨hb, wf⟩ := C07_macro_request tbl g tmpl pathArgs queryArgs vals cs h hl hv hk
+  rw [hb, C07_segments tbl g _ wf]; rfl
+
+/-- **the server reads back the supplied query values under the declared keys**, whatever bytes keys and values hold -/
+theorem C07_macro_pairs (tbl : List Nat) (g : Good tbl) (tmpl : List Comp) (pathArgs queryArgs : List MArg)
+    (vals : Nat → List (List Nat)) (cs : List MCall) (h : writes tbl tmpl pathArgs queryArgs = some cs)
+    (hl : ∀ l, Comp.lit l ∈ tmpl → Bytes l) (hv : ∀ i, ∀ v ∈ vals i, Bytes v) (hk : ∀ a ∈ queryArgs, Bytes a.name)
+    (hq : queryArgs.flatMap (fun a => (vals a.slot).map (fun v => (a.name, v))) ≠ []) :
+    ∃ q, queryOf (buildBuf tbl (pushes vals cs)) = some q ∧
+      parseQuery q = queryArgs.flatMap (fun a => (vals a.slot).map (fun v => (a.name, v))) := by
+  obtain ⟨hb, wf⟩ := C07_macro_request tbl g tmpl pathArgs queryArgs vals cs h hl hv hk
+  rw [hb]; exact (C07_pairs tbl g _ wf).2 hq
+
+/-- **the template is read as written**: the components `parse` returns print back to the template, none of them
+    holds a `/`, and the derivation succeeds exactly when every `{name}` names a path argument -/
+theorem C07_macro_template (p : List Nat) (comps : List Comp) (h : parse p = some comps) :
+    (p = [] ∧ comps = [] ∨ p ≠ [] ∧ joinSegs (comps.map Comp.text) = p) ∧ (∀ c ∈ comps, 47 ∉ c.text) := by
+  refine ⟨parse_text p comps h, ?_⟩
+  intro c hc
+  unfold parse at h
+  split at h
+  · simp at h; subst h; cases hc
+  · rename_i r
+    simp only [Option.some.injEq] at h; subst h
+    simp only [List.mem_map] at hc
+    obtain ⟨s, hs, rfl⟩ := hc
+    rw [compOf_text]; exact splitOn_no_sep 47 r s hs
+  · cases h
+
+theorem C07_macro_derivable (tbl : List Nat) (tmpl : List Comp) (pathArgs queryArgs : List MArg) :
+    (writes tbl tmpl pathArgs queryArgs).isSome =
+      tmpl.all (named pathArgs) := by
+  unfold writes; rw [Option.isSome_map, pathWrites_isSome]
+
+/-- `/a b/{x}/c/d` with `x` given `["p/q", ""]` and a query argument `k&` given `["1"]`:
+    `/a%20b/p%2Fq//c/d?k%26=1` -/
+example : (writes Gen.Uri.component [.lit [97, 32, 98], .param [120], .lit [99], .lit [100]] [⟨[120], 0⟩] [⟨[107, 38], 1⟩]).map
+      (fun cs => buildBuf Gen.Uri.component (pushes (fun i => if i = 0 then [[112, 47, 113], []] else [[49]]) cs)) =
+    some [47, 97, 37, 50, 48, 98, 47, 112, 37, 50, 70, 113, 47, 47, 99, 47, 100, 63, 107, 37, 50, 54, 61, 49] := by
+  decide
+
+example : parse [47, 97, 47, 123, 120, 125, 47, 123, 47, 123, 125] =
+    some [.lit [97], .param [120], .lit [123], .param []] := by decide
+end Macro
 
 /-! #### non-vacuity -/
 example : WF { segs := [.lit [97], .param [47, 63, 35, 37, 32, 195, 169]], query := [([107], [38, 61, 43])] } := by
